@@ -259,6 +259,28 @@ func vChooseCorpusCase(r *vx.Run, docs []vDoc, families []string) vCase {
 			t.apply(pos[p], p, p)
 		}
 		return vCase{fmt.Sprintf("scatter:%s:%d%%:salt%d", d.Key, dens, salt), t.bytes(), d.Key}
+	case "partnoise":
+		// noise confined to one part of the text (head, tail, middle third): every p-th word there is
+		// replaced, the rest is intact - short runs on one side of a long clean run
+		d := docs[r.Choose(len(docs), "doc")]
+		part := r.Choose(3, "part")
+		p := []int{4, 6, 10}[r.Choose(3, "period")]
+		frac := []int{4, 3}[r.Choose(2, "fraction")] // a quarter / a third of the text
+		t := vParse(d.Bytes)
+		n := t.nwords()
+		lo, hi := 0, n/frac
+		switch part {
+		case 1:
+			lo, hi = n-n/frac, n
+		case 2:
+			lo, hi = n/2-n/(2*frac), n/2+n/(2*frac)
+		}
+		for k := hi - 1; k >= lo; k-- {
+			if k%p == 0 {
+				t.apply(vEditSubOOV, k, k)
+			}
+		}
+		return vCase{fmt.Sprintf("partnoise:%s:%s every %d over 1/%d", d.Key, []string{"head", "tail", "middle"}[part], p, frac), t.bytes(), d.Key}
 	case "truncate":
 		d := docs[r.Choose(len(docs), "doc")]
 		pct := []int{60, 70, 80, 90}[r.Choose(4, "pct")]
